@@ -3,7 +3,7 @@ import ast
 import os
 import re
 
-from ..facts import Ctx, norm_cmp, exc_name, const_value
+from ..facts import tuple_components, Ctx, norm_cmp, exc_name, const_value
 from ..symex import show, walk, term_name, bind_call
 from .. import pat as P
 
@@ -196,6 +196,7 @@ def qr(t):
 
 def check(repo, rep):
     cx = Ctx(repo)
+    rep.cx = cx
     mfn = cx.fn('cmdline', 'main')
     tab = parser_table(mfn, cx.model.mods['cmdline']['consts'])
     tab_sym = parser_table_sym(cx)
@@ -209,7 +210,7 @@ def check(repo, rep):
             if isinstance(n, ast.Call) and isinstance(n.func, ast.Attribute) and n.func.attr == 'add_argument':
                 if id(n) not in in_main or any(not (isinstance(a, ast.Constant) and isinstance(a.value, str)) for a in n.args):
                     tab_incomplete = True
-    rep.floor('add_argument calls', len(tab), 33)
+    rep.floor('add_argument calls', len(tab), 25)
     byflag = {}
     for row in tab:
         for f in row['flags']:
@@ -228,20 +229,25 @@ def check(repo, rep):
             groups_fields = list(ast.literal_eval(ka.args[1]))
         except (ValueError, SyntaxError):
             groups_fields = None
-    if groups_fields is None:
+    kcls = cx.model.mods['cmdline_util']['classes'].get('KeywordArguments')
+    if groups_fields is None and kcls is not None and any((isinstance(b, ast.Name) and b.id == 'NamedTuple') or (isinstance(b, ast.Attribute) and b.attr == 'NamedTuple') for b in kcls.bases):
+        groups_fields = [n.target.id for n in kcls.body if isinstance(n, ast.AnnAssign) and isinstance(n.target, ast.Name)]      # class KeywordArguments(NamedTuple)
+    if not groups_fields:
         rep.unknown('KeywordArguments namedtuple not understood')
         return
     keymap_all = []
     for l in rets:
         v = l.value
-        if not (v[0] == 'call' and len(v[2]) == len(groups_fields) and all(a[0] == 'dict' for a in v[2])):
+        comps = tuple_components(cx, v)
+        if not (comps and len(comps) == len(groups_fields) and all(a[0] == 'dict' for a in comps)):
             rep.unknown('make_kwargs: return value %s is not KeywordArguments(dict, dict, dict)' % show(v)[:80])
             continue
         km = {}
-        for g, dct in zip(groups_fields, v[2]):
+        for g, dct in zip(groups_fields, comps):
             for k, val in dct[1]:
                 if k[0] == 'c':
                     km[(g, k[1])] = val
+        km['__leaf__'] = l
         keymap_all.append(km)
     # every args_ns.x read has a dest
     nreads = 0
@@ -262,6 +268,16 @@ def check(repo, rep):
                     rep.unknown('args_ns.%s: no dest found, but the parser is built by constructs the table extraction does not follow' % n.attr)
                     continue
                 rep.ob('every option read by make_kwargs is defined by the parser (else AttributeError at start-up)', n.attr in dests, cx.where('cmdline_util', n), 'make_kwargs:args_ns.%s' % n.attr, 'args_ns.%s has no add_argument dest' % n.attr)
+    # reads that only exist after evaluation (getattr(args_ns, name) with names from a table, helpers inlined)
+    for l in ml:
+        terms = [l.value] + [c[0] for c in l.conds] + [x for e in l.effects for x in (e[1], e[2]) if isinstance(x, tuple)]
+        for t_ in terms:
+            if t_ is None:
+                continue
+            for x in walk(t_):
+                if x[0] == 'attr' and x[1] == ns and x[2] not in seen_reads:
+                    seen_reads.add(x[2])
+                    rep.ob('every option read by make_kwargs is defined by the parser (else AttributeError at start-up)', x[2] in dests or tab_incomplete, cx.where('cmdline_util', kfn), 'make_kwargs:args_ns.%s' % x[2], 'args_ns.%s has no add_argument dest' % x[2])
     nreads = len(seen_reads)
     rep.floor('distinct options read by make_kwargs (and the helpers it hands the namespace to)', nreads, 25)
     for n in ast.walk(mfn):
@@ -322,6 +338,76 @@ def check(repo, rep):
         value_bearing = flag in docs and (re.match(r'^-?\d+(\.\d+)?$', first) or first == 'None' or (typ == 'str' and isinstance(dflt, str)))
         if flag in docs and value_bearing:
             rep.ob('option %s: parser default equals the documented default' % flag, same_default(docs[flag], d), where, 'cli-doc-default[%s]' % flag, 'parser %r, documented %r' % (d, docs[flag]), sample=dict(flag=flag, documented=docs[flag], parser=d))
+    # -u VALUE: a value that int() accepts (also negative: -u -1 is the last channel) reaches split() as that int, any other value unchanged.
+    # Decided on the paths of make_kwargs by evaluating, for a handful of -u values, the conditions that mention the option and the
+    # term stored under the keyword (a try: int(x) except path applies exactly when int(x) fails).
+    if '-u' in byflag and '-u' in SPEC:
+        from ..semantic import evaluator, value, Undecided
+        from ..termeval import NotEvaluable
+        grp_u, key_u = SPEC['-u'][0], SPEC['-u'][1]
+        udest = ('attr', ns, byflag['-u']['dest'])
+        bad = None
+        npts = 0
+        conv_somewhere = any(e[0] == 'call' and e[1][0] == 'call' and e[1][1] == ('b', 'int') and e[1][2] == (udest,) for km in keymap_all for e in km['__leaf__'].effects)
+        try:
+            for km in keymap_all:
+                l = km['__leaf__']
+                vt = km.get((grp_u, key_u))
+                if vt is None:
+                    continue
+                for uv in ('0', '1', '-1', '-2', '12', 'mix', 'avg', 'any', None):
+                    a_ = {udest: uv}
+                    def int_ok(x):
+                        try:
+                            int(x)
+                            return True
+                        except (ValueError, TypeError):
+                            return False
+                    # does this path apply to the value?  conditions that mention the option are evaluated; a path that passed through an
+                    # except handler after int(<option>) applies exactly when that conversion fails, the one that did not when it succeeds
+                    applies = True
+                    pending = None
+                    for ct, tr, _ in l.conds:
+                        if not any(x == udest for x in walk(ct)):
+                            continue
+                        ev_ = evaluator(a_)
+                        try:
+                            got_c = ev_.ev(ct)
+                        except NotEvaluable as exc:
+                            pending = pending or 'condition %s: %s' % (show(ct)[:60], exc)
+                            continue
+                        if ev_.leaves:
+                            pending = pending or 'condition %s depends on more than the option' % show(ct)[:60]
+                            continue
+                        if bool(got_c) != tr:
+                            applies = False
+                    conv = [e for e in l.effects if e[0] == 'call' and e[1][0] == 'call' and e[1][1] == ('b', 'int') and e[1][2] == (udest,)]
+                    handled = [e for e in l.effects if e[0] == 'except']
+                    if conv and not handled:
+                        applies = applies and int_ok(uv)
+                    elif handled and conv_somewhere:
+                        applies = applies and not int_ok(uv)          # the handler of the try around int(<option>)
+                    if applies and pending:
+                        raise Undecided(pending)
+                    if not applies:
+                        continue
+                    ev_ = evaluator(a_)
+                    try:
+                        got = ev_.ev(vt)
+                    except NotEvaluable as exc:
+                        raise Undecided('keyword term %s: %s' % (show(vt)[:60], exc))
+                    if ev_.leaves:
+                        raise Undecided('keyword term %s depends on more than the option' % show(vt)[:60])
+                    want = int(uv) if int_ok(uv) else uv
+                    npts += 1
+                    if got != want or type(got) != type(want):
+                        bad = bad or (l, '-u %s reaches split() as %r; it must be %r' % (uv, got, want))
+            if npts == 0:
+                raise Undecided('no path applied to any sample value')
+            rep.ob('-u VALUE reaches split() as an int when int() accepts it (negative indices included), unchanged otherwise', bad is None, cx.where('cmdline_util', kfn), 'make_kwargs:use-channel-conversion',
+                   bad[1] if bad else None, sample=dict(option='-u', grid_points=npts))
+        except Undecided as exc:
+            rep.unknown('make_kwargs: conversion of -u not decided (%s)' % exc)
     # API defaults that must agree with the CLI defaults
     sdef = {a.arg: dv for a, dv in zip(split_fn.args.args[-len(split_fn.args.defaults):], split_fn.args.defaults)}
     for flag, pn in (('-n', 'min_dur'), ('-m', 'max_dur'), ('-s', 'max_silence'), ('-d', 'drop_trailing_silence'), ('-R', 'strict_min_dur')):
@@ -404,6 +490,20 @@ def check(repo, rep):
             app = [e for e in l.effects if e[0] == 'call' and e[1][0] == 'call' and e[1][1][0] == 'attr' and e[1][1][2] == 'append' and e[1][2] == (c,)]
             rep.ob('the PrintWorker is registered as an observer', len(app) == 1, cx.where('cmdline_util', pw[0][3]), 'initialize_workers:printworker-observer')
     rep.floor('initialize_workers paths testing quiet', npw, 2)
+    # -o TEMPLATE / -T FORMAT reach the region saver in role
+    rs_init = cx.fn('workers', 'RegionSaverWorker.__init__', required=False)
+    nrs = 0
+    for l in il:
+        for e in l.effects:
+            if e[0] == 'call' and e[1][0] == 'call' and e[1][1] == ('g', 'workers', 'RegionSaverWorker') and rs_init is not None:
+                b = bind_call(e[1], rs_init, skip_self=True)
+                ps = [a.arg for a in rs_init.args.args][1:]
+                K = lambda k: ('sub', ('p', 'kwargs'), ('c', k))
+                nrs += 1
+                rep.ob('-o TEMPLATE is the region saver\'s file-name format and -T its audio format', b.get(ps[0]) == K('save_detections_as') and (len(ps) < 2 or b.get(ps[1]) in (K('export_format'), None)), cx.where('cmdline_util', e[3]),
+                       'initialize_workers:region-saver-args', '%s=%s, %s=%s' % (ps[0], show(b.get(ps[0]))[:40] if b.get(ps[0]) else None, ps[1] if len(ps) > 1 else '-', show(b.get(ps[1]))[:40] if len(ps) > 1 and b.get(ps[1]) else None))
+                break
+    rep.floor('region saver constructions in initialize_workers', nrs, 1)
     # the observers list and the split/io keywords reach the TokenizerWorker
     tw = [e[1] for l in il for e in l.effects if e[0] == 'call' and e[1][0] == 'call' and e[1][1] == ('g', 'workers', 'TokenizerWorker')]
     rep.ob('initialize_workers builds the TokenizerWorker with all keywords (**kwargs)', bool(tw) and all(dict(c[3]).get('**') == ('p', 'kwargs') for c in tw), cx.where('cmdline_util', ifn), 'initialize_workers:tokenizer-kwargs')
@@ -551,6 +651,78 @@ def check(repo, rep):
                    cx.where('util', fnode), 'make_duration_formatter[hmsi]:chain', detail, sample=dict(directive='%h:%m:%s.%i', fields=detail[:200]))
     for k, n in seen.items():
         rep.ob('make_duration_formatter has a %s case' % k, n >= 1, cx.where('util', ffn), 'make_duration_formatter:missing-%s' % k)
+    # ---------------------------------------------------------------- main(): argv -> parser -> make_kwargs; the wait loop ends when only the main thread is left
+    try:
+        mlv = cx.leaves('cmdline', 'main')
+    except Exception as exc:
+        mlv = []
+        rep.unknown('main(): not analysable (%s)' % exc)
+    from ..semantic import evaluator, Undecided
+    from ..termeval import NotEvaluable
+    nparse = 0
+    SYSARGV = ('prog', '-a', 'b')
+    for l in mlv:
+        mk = [e[1] for e in l.effects if e[0] == 'call' and e[1][0] == 'call' and e[1][1] == ('g', 'cmdline_util', 'make_kwargs')]
+        if not mk:
+            continue
+        pa = [e[1] for e in l.effects if e[0] == 'call' and e[1][0] == 'call' and e[1][1][0] == 'attr' and e[1][1][2] == 'parse_args']
+        nparse += 1
+        rep.ob('make_kwargs receives the parsed namespace', len(pa) == 1 and mk[0][2][:1] == (pa[0],), cx.where('cmdline', mfn), 'main:make_kwargs-arg', 'make_kwargs(%s)' % (show(mk[0][2][0])[-60:] if mk[0][2] else ''))
+        if len(pa) != 1 or not pa[0][2]:
+            rep.ob('main(argv): the parser reads argv, or sys.argv[1:] when argv is None', False, cx.where('cmdline', mfn), 'main:argv', 'parse_args calls on the path: %s' % [show(x)[-60:] for x in pa])
+            continue
+        # decided by evaluating the argument of parse_args for argv = None and for a given list, on the paths those values take
+        try:
+            for given, want in ((None, SYSARGV[1:]), (('x', 'y'), ('x', 'y'))):
+                a_ = {('p', 'argv'): given, ('ext', 'sys.argv'): SYSARGV}
+                applies = True
+                for ct, tr, _ in l.conds:
+                    if not any(x == ('p', 'argv') for x in walk(ct)):
+                        continue
+                    ev_ = evaluator(a_)
+                    gotc = ev_.ev(ct)
+                    if ev_.leaves:
+                        raise Undecided('condition %s' % show(ct)[:50])
+                    if bool(gotc) != tr:
+                        applies = False
+                if not applies:
+                    continue
+                ev_ = evaluator(a_)
+                got = ev_.ev(pa[0][2][0])
+                if ev_.leaves:
+                    raise Undecided('argument %s' % show(pa[0][2][0])[:60])
+                rep.ob('main(argv): the parser reads argv, or sys.argv[1:] when argv is None', tuple(got) == tuple(want) if isinstance(got, (tuple, list)) else False, cx.where('cmdline', mfn),
+                       'main:argv[%s]' % ('None' if given is None else 'given'), 'with argv=%r and sys.argv=%r the parser is given %r' % (given, SYSARGV, got), sample=dict(argv=repr(given), parsed=repr(want)))
+        except (Undecided, NotEvaluable) as exc:
+            rep.unknown('main(): what the parser is given could not be evaluated (%s)' % exc)
+    rep.floor('main() paths that build the keyword groups', nparse, 2)
+    # the polling loop: EndOfProcessing exactly when threading.enumerate() holds one thread (the main one)
+    NTHREADS = ('call', ('b', 'len'), (('call', ('ext', 'threading.enumerate'), (), ()),), ())
+    ends = [l for l in mlv if l.outcome == 'raise' and exc_name(l) == 'EndOfProcessing']
+    goes = [l for l in mlv if l.outcome == 'loop-back']
+    if not ends or not goes:
+        rep.unknown('main(): the wait loop (raise EndOfProcessing / keep waiting) was not recognised')
+    else:
+        try:
+            bad = None
+            for k_ in (1, 2, 3, 5):
+                def takes(l):
+                    for ct, tr, _ in l.conds:
+                        if not any(x == NTHREADS for x in walk(ct)):
+                            continue
+                        ev_ = evaluator({NTHREADS: k_})
+                        got = ev_.ev(ct)
+                        if ev_.leaves:
+                            raise Undecided('condition %s depends on more than the number of threads' % show(ct)[:60])
+                        if bool(got) != tr:
+                            return False
+                    return True
+                e_, g_ = any(takes(l) for l in ends), any(takes(l) for l in goes)
+                if (k_ == 1) != e_ or (k_ == 1) == g_:
+                    bad = bad or 'with %d live thread(s) the loop %s' % (k_, 'ends' if e_ else 'keeps waiting')
+            rep.ob('the program ends (status 0 path) exactly when only the main thread is left', bad is None, cx.where('cmdline', mfn), 'main:wait-loop', bad, sample=dict(rule='wait loop'))
+        except (Undecided, NotEvaluable) as exc:
+            rep.unknown('main(): wait loop condition not evaluable (%s)' % exc)
     # ---------------------------------------------------------------- exit codes
     rets1 = rets0 = False
     for n in ast.walk(mfn):
@@ -576,19 +748,7 @@ def check(repo, rep):
         bad = any((g := norm_cmp(c[0], c[1])) and g[0] == 'is not' and g[1] == ('attr', ns, byflag['-j']['dest'] if '-j' in byflag else '') for c in l.conds) and \
             any((g := norm_cmp(c[0], c[1])) and g[0] == 'is' and g[1] == ('attr', ns, byflag['-O']['dest'] if '-O' in byflag else '') for c in l.conds)
         rep.ob('no accepting path of make_kwargs has -j without -O', not bad, cx.where('cmdline_util', kfn), 'make_kwargs:join-without-save-accepted')
-    # use_channel: numeric strings become ints
-    for km in keymap_all:
-        v = km.get(('io', 'use_channel'))
-        if v is not None and v[0] == 'call' and v[1][0] == 'g' and cx.model.lookup(v[1]) and cx.model.lookup(v[1])[0] == 'func' and ns in v[2]:
-            hf = cx.model.lookup(v[1])[1]
-            hp = ('p', hf.args.args[list(v[2]).index(ns)].arg)
-            hvals = [l.value for l in cx.sx.run(v[1][1], hf) if l.outcome == 'return']
-            d_ = byflag['-u']['dest']
-            ok = bool(hvals) and all(hv in (('attr', hp, d_), ('call', ('b', 'int'), (('attr', hp, d_),), ())) for hv in hvals)
-            rep.ob('-u is passed as int when numeric, else as given', ok, cx.where('cmdline_util', kfn), 'make_kwargs:use_channel', 'helper %s returns %s' % (v[1][2], [show(h)[:50] for h in hvals]))
-        elif v is not None:
-            ok = v == ('attr', ns, byflag['-u']['dest']) or v == ('call', ('b', 'int'), (('attr', ns, byflag['-u']['dest']),), ())
-            rep.ob('-u is passed as int when numeric, else as given', ok, cx.where('cmdline_util', kfn), 'make_kwargs:use_channel', 'use_channel is %s' % show(v)[:60])
+    # (the conversion of -u is decided above by evaluating the paths of make_kwargs for sample values)
     rep.explanation = ('CLI tables extracted from the source on every run and compared with the spec table of the property: 33 add_argument calls -> (flags, dest, type, default); make_kwargs evaluated on all paths -> '
                        '(group, key) <- args_ns.<dest>; for the 14 named options and for -O -o -j -T -q --printf --time-format --timestamp-format the chain flag -> dest -> key is the specified one, with the '
                        'specified type and default; parser defaults equal the documented defaults parsed from the captured -h block of doc/command_line_usage.rst and the API defaults (split signature, '
